@@ -139,6 +139,16 @@ def check_fresh(ctx):
     module_names = {}
     for mn, m in ctx.prog.modules.items():
         module_names[mn] = {t.id for s in m.tree.body if isinstance(s, ast.Assign) for t in s.targets if isinstance(t, ast.Name)}
+    # module-level objects of the package visible in a module under an imported name
+    own = {mn: set(v) for mn, v in module_names.items()}
+    for mn, m in ctx.prog.modules.items():
+        for node in ast.walk(m.tree):
+            if isinstance(node, ast.ImportFrom):
+                src = [k for k in own if node.module and (k.endswith("." + node.module.lstrip(".")) or k == node.module)]
+                for a_ in node.names:
+                    if any(a_.name in own[k] for k in src):
+                        module_names[mn].add(a_.asname or a_.name)
+    MUTATORS = {"update", "append", "extend", "setdefault", "pop", "popitem", "clear", "insert", "remove", "sort", "reverse", "add", "discard", "__setitem__"}
     for key in keys:
         fn = cg.funcs[key]
         mn, q = key
@@ -168,6 +178,14 @@ def check_fresh(ctx):
                                                 "`%s` caches state on a caller-owned object: a later call with other inputs sees the stale value" % A.unparse(t)[:50], key="param-attr:%s:%s" % (q, root.id))
                             elif root.id in module_names.get(mn, ()) and root.id not in A.assigned_names(fn) - {root.id} and root.id not in params and _is_module_level(root.id, fn):
                                 ctx.violate(R, node, "%s writes module-level state `%s`" % (q, root.id), "`%s` mutates a module-level object: results depend on call history" % A.unparse(t)[:50], key="modstate:%s:%s" % (q, root.id))
+            if isinstance(node, ast.Call) and isinstance(node.func, ast.Attribute) and node.func.attr in MUTATORS:
+                root = node.func.value
+                while isinstance(root, (ast.Attribute, ast.Subscript)):
+                    root = root.value
+                if isinstance(root, ast.Name) and root.id in module_names.get(mn, ()) and root.id not in params and _is_module_level(root.id, fn):
+                    ctx.violate(R, node, "%s changes module-level state `%s`" % (q, root.id),
+                                "`%s` mutates a module-level object shared by every later call (and by the helper, which reads it): results depend on call history" % A.unparse(node)[:60],
+                                key="modstate:%s:%s" % (q, root.id))
             if isinstance(node, ast.Call) and A.call_name(node) == "setattr" and node.args and isinstance(node.args[0], ast.Name) and node.args[0].id in params:
                 ctx.violate(R, node, "%s sets an attribute on its parameter `%s`" % (q, node.args[0].id), "setattr on a caller-owned object caches state across calls", key="param-setattr:%s:%s" % (q, node.args[0].id))
     ctx.floor(R, n, 30)
@@ -315,6 +333,8 @@ def check_order(ctx):
 
 def run(ctx):
     check_pickle(ctx)
+    from .C02 import check_cache
+    check_cache(ctx, "C05-CACHE")
     check_carry(ctx)
     check_fresh(ctx)
     check_feed(ctx)
